@@ -44,7 +44,8 @@ TABLE = {
     'C08': [('OpyVerif.Proofs.C08ops', 'Opy.PNode', None), ('OpyVerif.Proofs.C08grow', 'Opy.PNode', None),
             ('OpyVerif.Generated.Constants', 'Opy.Gen', r'nArgs_')],
     'C09': [('OpyVerif.Proofs.C09', 'Opy.PNode', None), ('OpyVerif.Proofs.C09repro', 'Opy.PNode', None),
-            ('OpyVerif.Proofs.ReproProg', 'Opy', None), ('OpyVerif.Proofs.ReproCode', 'Opy', None), ('OpyVerif.Generated.Repro', 'Opy.Gen', None)],
+            ('OpyVerif.Proofs.ReproProg', 'Opy', None), ('OpyVerif.Proofs.ReproCode', 'Opy', None), ('OpyVerif.Generated.Repro', 'Opy.Gen', None),
+            ('OpyVerif.Proofs.SelectProg', 'Opy', r'tournProg'), ('OpyVerif.Generated.Select', 'Opy.Gen', r'tournProg_eq')],
     'C10': [('OpyVerif.Proofs.C10', 'Opy', None), ('OpyVerif.Proofs.C10real', 'Opy', None),
             ('OpyVerif.Proofs.OpTable', 'Opy', None),
             ('OpyVerif.Generated.Ops', 'Opy.Gen', r'opTable_eq|terminal_returns_value'),
@@ -78,6 +79,7 @@ TABLE = {
     'C18': [('OpyVerif.Proofs.C18', 'Opy', None), ('OpyVerif.Proofs.C18real', 'Opy', None),
             ('OpyVerif.Proofs.C18code', 'Opy', None), ('OpyVerif.Proofs.Formulas', 'Opy', r'^d_levy$'),
             ('OpyVerif.Generated.FormulasC18', 'Opy.Gen', None),
+            ('OpyVerif.Proofs.SelectProg', 'Opy', None), ('OpyVerif.Generated.Select', 'Opy.Gen', None),
             ('OpyVerif.Generated.Constants', 'Opy.Gen', r'tournamentSize_pos')],
     'C19': [('OpyVerif.Proofs.C19', 'Opy', None),
             ('OpyVerif.Proofs.C04', 'Opy', r'load_after_save|lookup_loadInto_saved')],
@@ -146,6 +148,6 @@ def owner_props(file_rel, line=None):
             if m == mod or (mod.endswith('Defs') and m == mod[:-4]):
                 if name is None or rx is None or re.search(rx, name.split('.')[-1]):
                     owners.append(prop)
-    if 'Model' in mod or 'Lemmas' in mod or mod.endswith('Defs'):
+    if 'Model' in mod or 'Lemmas' in mod or mod.endswith('Defs') or mod.endswith('.All') or mod == 'Driver':
         owners = sorted(set(owners) | set(TABLE))   # a broken model/helper breaks everything built on it
     return sorted(set(owners)), name
